@@ -15,6 +15,7 @@ extern const char *kind_names[K_NKINDS];
 extern long calls[K_NKINDS];          /* calls of each kind since sm_reset() */
 extern long faults_hit;               /* how many planned faults fired */
 extern int  sm_trace;                 /* print one line per callback */
+extern int  sm_recycle;               /* freed blocks are reused, contents untouched */
 extern int  sm_fill;                  /* byte used to pre-fill alloc()ed memory */
 extern long sm_viol;                  /* number of contract / ledger violations seen */
 extern long sm_written_total;         /* bytes accepted by write() since reset */
